@@ -102,7 +102,8 @@ Proof.
   apply tok_at_assign; try lia.
   match goal with H : nth_error _ _ = Some ?b |- _ => rewrite N in H; inversion H; subst b end.
   pose proof (dispatch_char ch) as K. unfold dispatch_char_ok in K. rewrite D in K.
-  apply andb_true_iff in K. destruct K as [K _]. apply andb_true_iff in K. tauto.
+  apply andb_true_iff in K. destruct K as [K K3]. apply andb_true_iff in K. destruct K as [K1 K2].
+  apply negb_true_iff in K2, K3. apply class_ok_plain; assumption.
 Qed.
 
 Ltac leaf :=
@@ -111,8 +112,37 @@ Ltac leaf :=
   try (apply tok_at_assign; first [ lia | reflexivity | idtac ]);
   try (eval_lits; eapply tok_at_assign_lit; [ lia | lia | lia | reflexivity | eassumption ]).
 
-Lemma parse_eol_comment_spec s t0 : lex_pre s -> wp (parse_eol_comment s t0) (lex_post s).
-Proof. revert s t0. start parse_eol_comment. wp_go; leaf. Qed.
+Lemma nth_error_skipn0 {A} (l : list A) n : nth_error (skipn n l) 0 = nth_error l n.
+Proof. rewrite nth_error_skipn. f_equal. lia. Qed.
+
+Lemma class_ok_comment rest ch n :
+  nth_error rest 0 = Some ch -> 1 <= n -> (beq ch x2f = true -> 2 <= n) ->
+  class_ok b_sqli_token_type_comment n (firstn (Z.to_nat n) rest) = true.
+Proof.
+  intros N Hn Hs. destruct rest as [|b rest]; [discriminate|]. cbn in N. inversion N; subst b.
+  unfold class_ok. replace (Z.to_nat n) with (S (Z.to_nat (n - 1))) by lia. cbn [firstn first_is].
+  destruct (beq ch x2f) eqn:E.
+  - specialize (Hs eq_refl). replace (1 <=? n) with true by lia. replace (2 <=? n) with true by lia. reflexivity.
+  - replace (1 <=? n) with true by lia. reflexivity.
+Qed.
+
+Lemma index_byte_head_ne l b c : nth_error l 0 = Some b -> beq b c = false -> index_byte l c <> 0.
+Proof.
+  destruct l as [|x l]; [discriminate|]. cbn [nth_error]. intros H E. inversion H; subst x.
+  cbn [index_byte]. rewrite E. destruct (index_byte l c <? 0) eqn:F; lia.
+Qed.
+
+Lemma parse_eol_comment_spec s t0 ch :
+  lex_pre s -> nth_error (input s) (Z.to_nat (pos s)) = Some ch ->
+  beq ch x0a = false -> beq ch x2f = false ->
+  wp (parse_eol_comment s t0) (lex_post s).
+Proof.
+  intros Hpre N Hn Hsl. unfold lex_pre in Hpre. pose proof (len_nonneg (input s)) as Hlen.
+  unfold parse_eol_comment. unfold slen in *.
+  assert (N0 : nth_error (skipn (Z.to_nat (pos s)) (input s)) 0 = Some ch) by (rewrite nth_error_skipn0; exact N).
+  pose proof (index_byte_head_ne _ _ x0a N0 Hn) as Hne.
+  wp_go; leaf; (eapply class_ok_comment; [exact N0|lia|congruence]).
+Qed.
 
 Lemma parse_hash_spec s t0 :
   lex_pre s -> nth_error (input s) (Z.to_nat (pos s)) = Some x23 ->
@@ -120,13 +150,13 @@ Lemma parse_hash_spec s t0 :
 Proof.
   intros Hpre N. unfold parse_hash. simp_st.
   destruct (has_flag _ _).
-  - eapply wp_conseq; [apply parse_eol_comment_spec; exact Hpre|].
+  - eapply wp_conseq; [eapply parse_eol_comment_spec; [exact Hpre|exact N|reflexivity|reflexivity]|].
     intros r. apply lex_post_from; simp_st; try reflexivity; lia.
   - unfold lex_pre in Hpre. pose proof (len_nonneg (input s)). wp_go. leaf.
 Qed.
 
-Ltac via_eol Hpre :=
-  eapply wp_conseq; [apply parse_eol_comment_spec; exact Hpre|];
+Ltac via_eol Hpre N :=
+  eapply wp_conseq; [eapply parse_eol_comment_spec; [exact Hpre|exact N|reflexivity|reflexivity]|];
   let r := fresh "r" in intros r; apply lex_post_from; simp_st; try reflexivity; lia.
 
 Lemma parse_dash_spec s t0 :
@@ -134,7 +164,7 @@ Lemma parse_dash_spec s t0 :
   wp (parse_dash s t0) (lex_post s).
 Proof.
   intros Hpre N. pose proof Hpre as Hpre'. unfold lex_pre in Hpre'. pose proof (len_nonneg (input s)).
-  unfold parse_dash. wp_go; try (via_eol Hpre); try leaf. 
+  unfold parse_dash. wp_go; try (via_eol Hpre N); try leaf. 
 Qed.
 
 Lemma parse_backslash_spec s t0 : lex_pre s -> wp (parse_backslash s t0) (lex_post s).
@@ -181,9 +211,6 @@ Proof.
   rewrite Hp. pose proof (span_range p l). lia.
 Qed.
 
-Lemma nth_error_skipn0 {A} (l : list A) n : nth_error (skipn n l) 0 = nth_error l n.
-Proof. rewrite nth_error_skipn. f_equal. lia. Qed.
-
 Lemma parse_word_spec s t0 ch :
   lex_pre s -> nth_error (input s) (Z.to_nat (pos s)) = Some ch -> mem ch word_accept = false ->
   wp (parse_word s t0) (lex_post s).
@@ -215,7 +242,9 @@ Proof.
     unfold lex_post. simp_st. refine (conj _ (conj _ (conj _ (conj _ (conj _ _))))); try reflexivity; try lia.
     apply tok_at_assign; try lia.
     destruct (search_keyword_ok (firstn (Z.to_nat i) (firstn (Z.to_nat (Z.min length 31)) rest))) as [K|K];
-      [congruence|]. rewrite Hc. apply kw_class_is_class. exact K.
+      [congruence|]. rewrite Hc. apply class_ok_kw; [exact K|].
+    intros Hf. apply search_keyword_function_len in Hf.
+    rewrite len_firstn_le in Hf by (rewrite len_firstn_le; lia). lia.
   - intros _.
     destruct (length =? 32) eqn:E32.
     + apply wp_bind. apply wp_bind. apply wp_drop; [lia|].
@@ -230,11 +259,12 @@ Proof.
     + apply wp_bind. apply wp_Ok. destruct (length <? 32) eqn:E2; [|lia].
       apply wp_bind. apply wp_take; [rewrite len_firstn_le; lia|]. apply wp_Ok.
       unfold lex_post. simp_st. refine (conj _ (conj _ (conj _ (conj _ (conj _ _))))); try reflexivity; try lia.
-      match goal with |- tok_at _ _ _ (mkTok _ _ _ ?c _ _ _) => assert (Hc : is_class c = true) end.
-      { match goal with |- context [search_keyword ?k] => destruct (search_keyword_ok k) as [K|K] end.
-        - rewrite K. reflexivity.
-        - destruct (beq _ x00); [reflexivity|]. apply kw_class_is_class. exact K. }
-      unfold rest. apply tok_at_assign; try lia. exact Hc.
+      unfold rest. apply tok_at_assign; try lia. fold rest.
+      match goal with |- context [search_keyword ?k] => destruct (search_keyword_ok k) as [K|K]; set (key := k) in * end.
+      * rewrite K. reflexivity.
+      * destruct (beq (search_keyword key) x00); [reflexivity|]. apply class_ok_kw; [exact K|].
+        intros Hf. apply search_keyword_function_len in Hf. unfold key in Hf.
+        rewrite len_firstn_le in Hf by (rewrite len_firstn_le; lia). lia.
 Qed.
 
 (* ---------- parseStringCore ---------- *)
@@ -299,7 +329,7 @@ Ltac use_str_core :=
   intros [t np] (?Hnp & ?Hadv & ?Htok & ?Hcat & ?Hcnt).
 
 Lemma tok_at_set_cat inp lo hi t c :
-  tok_at inp lo hi t -> is_class c = true -> tok_at inp lo hi (set_cat t c).
+  tok_at inp lo hi t -> class_ok c (t_len t) (t_val t) = true -> tok_at inp lo hi (set_cat t c).
 Proof. unfold tok_at, set_cat. cbn [t_pos t_len t_val t_cat]. intuition. Qed.
 
 Lemma tok_at_set_open inp lo hi t c : tok_at inp lo hi t -> tok_at inp lo hi (set_open t c).
@@ -320,15 +350,19 @@ Proof.
   revert s t0. start parse_tick. unfold slen. use_str_core.
   assert (L : len (t_val t) = t_len t) by (eapply tok_at_len; [| |exact Htok]; lia).
   apply wp_bind. apply wp_take; [destruct Htok as (? & ? & _); lia|].
-  destruct (beq _ _); apply wp_Ok; split_post;
-    (apply tok_at_set_cat; [eapply tok_at_weaken; [| |exact Htok]; lia|reflexivity]).
+  destruct (beq _ _) eqn:Ef; apply wp_Ok; split_post;
+    (apply tok_at_set_cat; [eapply tok_at_weaken; [| |exact Htok]; lia|]); [|reflexivity].
+  apply beq_eq, search_keyword_function_len in Ef. rewrite len_firstn_le in Ef by (destruct Htok as (? & ? & _); lia).
+  unfold class_ok. replace (2 <=? t_len t) with true by lia. reflexivity.
 Qed.
 
 Lemma parse_slash_spec s t0 : lex_pre s -> wp (parse_slash s t0) (lex_post s).
 Proof.
   intros Hpre. pose proof Hpre as Hpre'. unfold lex_pre in Hpre'. pose proof (len_nonneg (input s)) as Hlen.
   unfold parse_slash, is_mysql_comment. unfold slen in *.
-  wp_go; try (eapply wp_conseq; [apply parse_operator1_spec; exact Hpre|]; intros r Hr; exact Hr); try leaf. 
+  wp_go; try (eapply wp_conseq; [apply parse_operator1_spec; exact Hpre|]; intros r Hr; exact Hr); try leaf.
+  all: destruct (get_ok "x" (input s) (pos s) Hpre') as [ch [_ N]];
+    (eapply class_ok_comment; [rewrite nth_error_skipn0; exact N|lia|intros; lia]). 
 Qed.
 
 Lemma parse_operator2_spec s t0 : lex_pre s -> wp (parse_operator2 s t0) (lex_post s).
@@ -337,11 +371,11 @@ Proof.
   unfold parse_operator2. unfold slen in *.
   wp_go; try (eapply wp_conseq; [apply parse_operator1_spec; exact Hpre|]; intros r Hr; exact Hr); try leaf.
   all: match goal with
-       | |- is_class (search_keyword ?k) = true =>
+       | |- class_ok (search_keyword ?k) _ _ = true =>
            destruct (search_keyword_ok k) as [K|K];
            [ exfalso; rewrite K in *;
              match goal with H : negb (beq _ _) = true |- _ => vm_compute in H; discriminate H end
-           | apply kw_class_is_class; exact K ]
+           | apply class_ok_kw; [exact K|intros _; lia] ]
        end.
 Qed.
 
@@ -411,11 +445,11 @@ Proof.
 Qed.
 
 Lemma lex_post_set_cat s r c :
-  lex_post s r -> is_class c = true ->
+  lex_post s r -> (forall n v, class_ok c n v = true) ->
   lex_post s (let '(s', t, np) := r in (s', set_cat t c, np)).
 Proof.
   destruct r as [[s' t] np]. unfold lex_post. intros (A & B & C & D & E & F) Hc.
-  refine (conj A (conj B (conj C (conj D (conj E _))))). apply tok_at_set_cat; assumption.
+  refine (conj A (conj B (conj C (conj D (conj E _))))). apply tok_at_set_cat; [assumption|apply Hc].
 Qed.
 
 Lemma parse_var_spec s t0 : lex_pre s -> wp (parse_var s t0) (lex_post s).
@@ -438,12 +472,12 @@ Proof.
        | |- wp (parse_tick _ _) _ =>
            eapply wp_conseq; [apply parse_tick_spec; unfold lex_pre, slen; simp_st; lia|];
            intros [[s' t] np] Hr; apply wp_Ok;
-           apply (lex_post_set_cat _ (s', t, np) b_sqli_token_type_variable); [|reflexivity];
+           apply (lex_post_set_cat _ (s', t, np) b_sqli_token_type_variable); [|intros; reflexivity];
            eapply lex_post_from; [..|exact Hr]; simp_st; try reflexivity; lia
        | |- wp (parse_string _ _) _ =>
            eapply wp_conseq; [apply parse_string_spec; unfold lex_pre, slen; simp_st; lia|];
            intros [[s' t] np] Hr; apply wp_Ok;
-           apply (lex_post_set_cat _ (s', t, np) b_sqli_token_type_variable); [|reflexivity];
+           apply (lex_post_set_cat _ (s', t, np) b_sqli_token_type_variable); [|intros; reflexivity];
            eapply lex_post_from; [..|exact Hr]; simp_st; try reflexivity; lia
        | _ => leaf
        end.
